@@ -339,6 +339,20 @@ fn ramp(kind: usize, n: usize) -> (String, String) {
             }
             ("note-chain".into(), t)
         }
+        10 => {
+            // notes that all reference each other ("Team" / "Related" sections of block references): the path listing
+            // enumerates every simple chain of references, which is factorial in the size of the clique
+            let mut t = String::from("%%%LIBRARY\n");
+            for i in 0..n {
+                t.push_str(&format!("%%%NOTE person-{}\n# Person {}\n\n## Team\n\n", i, i));
+                for j in 0..n {
+                    if i != j {
+                        t.push_str(&format!("[Person {}](person-{})\n\n", j, j));
+                    }
+                }
+            }
+            ("mutual-references".into(), t)
+        }
         6 => ("long-line".into(), format!("{}\n", "word ".repeat(n))),
         _ => ("many-links".into(), format!("{}\n", (0..n).map(|i| format!("[l{}](n2)", i)).collect::<Vec<_>>().join(" "))),
     }
@@ -436,7 +450,7 @@ impl Check for C03 {
 impl C03 {
     fn ramp_case(&self, tier: Tier, idx: u64, n_ramp: u64, _rng: &mut Rng, mut rep: CaseReport) -> CaseReport {
         // (kind, size) grid: sizes up to the clean bound, and a few beyond it (known finding)
-        let kinds = 10u64;
+        let kinds = 11u64;
         let kind = (idx % kinds) as usize;
         let step = idx / kinds;
         let steps = (n_ramp / kinds).max(1);
@@ -448,14 +462,17 @@ impl C03 {
             // growth beyond it (a 40-note library that takes minutes and gigabytes) is recorded in DESIGN.md
             8 => tier.pick(12, 14),
             9 => tier.pick(150, 240),
+            // mutual references: factorial, so the clean bound is a handful of notes; one point beyond it (known finding)
+            10 => 6,
             _ => tier.pick(4000, 20000),
         };
-        let beyond = step + 1 == steps && kind <= 4; // the last step of the recursive-walk kinds goes beyond the clean bound
+        let beyond = step + 1 == steps && (kind <= 4 || kind == 10); // the last step of the recursive-walk kinds goes beyond the clean bound
         let size = if beyond {
             match kind {
                 0 | 1 | 2 => 8000,
                 3 => 2500,
                 4 => 1200,
+                10 => 8,
                 _ => 400_000,
             }
         } else {
@@ -491,6 +508,10 @@ impl C03 {
                     // budget: quadratic in the number of blocks, generous constant
                     let n = size as f64;
                     let budget = 5.0 + 2.0e-5 * n * n.min(20000.0);
+                    if kind == 10 && beyond && cpu > 5.0 {
+                        // eight small notes that reference each other: tens of seconds of CPU before the first answer (nine: minutes)
+                        rep.violate("cpu-budget", &locus, format!("{} x {}: {:.1}s CPU for a library of {} bytes (wall {:.1}s)", name, size, cpu, text.len(), wall), replay.clone());
+                    }
                     if cpu > budget && !beyond {
                         rep.violate("cpu-budget", &locus, format!("{} x {}: {:.1}s CPU (budget {:.1}s, wall {:.1}s)", name, size, cpu, budget, wall), replay.clone());
                     }
